@@ -753,7 +753,8 @@ impl Object {
 	/// Puts this JSON object in canonical form according to
 	/// [RFC 8785](https://www.rfc-editor.org/rfc/rfc8785#name-generation-of-canonical-jso).
 	///
-	/// This will canonicalize the entries and sort them by key.
+	/// This will canonicalize the entries and sort them by key, comparing keys
+	/// as sequences of UTF-16 code units as required by the RFC.
 	/// Entries with the same key are sorted by value.
 	#[cfg(feature = "canonicalize")]
 	pub fn canonicalize_with(&mut self, buffer: &mut ryu_js::Buffer) {
@@ -761,7 +762,12 @@ impl Object {
 			item.canonicalize_with(buffer);
 		}
 
-		self.sort()
+		self.entries.sort_by(canonical_cmp);
+		self.indexes.clear();
+
+		for i in 0..self.entries.len() {
+			self.indexes.insert(&self.entries, i);
+		}
 	}
 
 	/// Puts this JSON object in canonical form according to
@@ -771,6 +777,20 @@ impl Object {
 		let mut buffer = ryu_js::Buffer::new();
 		self.canonicalize_with(&mut buffer)
 	}
+}
+
+/// Canonical (RFC 8785) entry ordering: by key, compared as sequences of
+/// UTF-16 code units, then by value.
+///
+/// This differs from the `str` ordering used by [`Object::sort`] when one key
+/// holds a character in `U+E000..=U+FFFF` where the other holds a
+/// supplementary-plane character (encoded with surrogates in UTF-16).
+#[cfg(feature = "canonicalize")]
+fn canonical_cmp(a: &Entry, b: &Entry) -> Ordering {
+	a.key
+		.encode_utf16()
+		.cmp(b.key.encode_utf16())
+		.then_with(|| a.value.cmp(&b.value))
 }
 
 pub type Iter<'a> = core::slice::Iter<'a, Entry>;
